@@ -38,8 +38,13 @@ class CompiledPattern:
         self.origin = origin
         self.parsed = ParsedPattern(pattern, flags)
         self.alts: List[Tuple[Optional[str], Lang, object]] = []
+        self.lazy: Dict[Optional[str], int] = {}
         for gname, rx, sub in self.parsed.alternatives():
-            self.alts.append((gname, Lang(rx, gname or '?'), sub))
+            nlazy = ParsedPattern.lazy_repeats(sub)
+            self.lazy[gname] = nlazy
+            # a lazy alternative matches the shortest member at a position: its token language is the set
+            # of members without a proper prefix in the language
+            self.alts.append((gname, Lang(rx, gname or '?', shortest=nlazy > 0), sub))
 
     def names(self) -> List[Optional[str]]:
         return [n for n, _, _ in self.alts]
@@ -150,7 +155,7 @@ def restrict(lang: Lang, cs: CS) -> Lang:
         if rx.kind == 'star':
             return Rx.star(go(rx.items[0]))
         return rx
-    return Lang(go(lang.rx), lang.name)
+    return Lang(go(lang.rx), lang.name, shortest=lang.shortest)
 
 
 def deterministic(lang: Lang) -> Optional[str]:
@@ -171,7 +176,7 @@ def deterministic(lang: Lang) -> Optional[str]:
             if len(hits) > 1:
                 return f'two positions can consume {blk.describe()}'
             if hits:
-                T = nfa.closure([hits[0][1]])
+                T = nfa.closure([hits[0][1]], blk)
                 if T not in seen:
                     seen[T] = True
                     work.append(T)
